@@ -148,9 +148,9 @@ Print Assumptions C06_exactly_one.
 
 (** The first argument of [splitPeriod] says whether the tree contains the repair "period range
     covers listed segments" (the harness reads it from the source): [None] = the range is
-    [period of the window start, period of now], [Some atoMS] = it is widened to the periods of the
-    first and the last listed segment of every SegmentTimeline, within [startPeriodNr - 1, period of
-    now + atoMS].  The theorems above are about [None] (and hold for [Some _] in $Number$ mode,
+    [period of the window start, period of now], [Some (atoMS, loopMS)] = it is widened to the periods of the
+    first and the last listed segment of every SegmentTimeline, within [period of window start -
+    loopMS, period of now + atoMS].  The theorems above are about [None] (and hold for [Some _] in $Number$ mode,
     where nothing is widened).
 
     WITHOUT the repair: a listed segment that starts at or after the end of the last period
@@ -178,13 +178,13 @@ Print Assumptions C06_early_segment_before_fix.
 
 (** WITH the repair both segments have their period ... *)
 Theorem C06_late_early_segment_after_fix :
-  splitPeriod false (Some 3000) 60 2000 MTimelineTime false 0 0 0 59000
+  splitPeriod false (Some (3000, 8000)) 60 2000 MTimelineTime false 0 0 0 59000
     [ {| a_image := false; a_ts := Some 90000; a_dur := None; a_startNr := None; a_tl := Some atoTL |} ] =
   Ok [ {| pd_nr := 0; pd_start := 0;
           pd_as := [ {| o_pto := 0; o_startNr := None; o_tl := Some [ {| p_t := Some 0; p_d := 180000; p_r := 29 |} ]; o_cont := false |} ] |};
        {| pd_nr := 1; pd_start := 60;
           pd_as := [ {| o_pto := 5400000; o_startNr := None; o_tl := Some [ {| p_t := Some 5400000; p_d := 180000; p_r := 0 |} ]; o_cont := false |} ] |} ] /\
-  splitPeriod false (Some 0) 30 6000 MTimelineTime false 0 0 120000 121000 [earlyAS] =
+  splitPeriod false (Some (0, 24000)) 30 6000 MTimelineTime false 0 0 120000 121000 [earlyAS] =
   Ok [ {| pd_nr := 0; pd_start := 0;
           pd_as := [ {| o_pto := 0; o_startNr := None; o_tl := Some [ {| p_t := Some 10260000; p_d := 540000; p_r := 0 |} ]; o_cont := false |} ] |};
        {| pd_nr := 1; pd_start := 120; pd_as := [ {| o_pto := 10800000; o_startNr := None; o_tl := Some []; o_cont := false |} ] |} ].
@@ -199,14 +199,15 @@ Print Assumptions C06_late_early_segment_after_fix.
     presentationTimeOffset and startNumber statements.  [tlBound] only asks of every
     AdaptationSet a sane timescale and times below 2^63 (no wrap in first/periodTicks).
     Since commit ea1922e the widening is bounded; the last premise says that the first listed
-    segment begins less than one period before the period of the window start and the last one
+    segment begins no earlier than the period one loop before the window start (e74431e: no
+    segment is longer than the loop) and the last one
     not after the period of now + ato - true of every timeline LiveMPD produces (the first listed
     segment ends after the window start, the last begins before now + ato: the window shape
     proved for C02, theories/Window.v), stated here as a premise because the single-period
     timeline is an input of this model. *)
-Theorem C06_partition_full : forall atoMS pph seg mode cont ast snr st now ases ps j a s0 rest t0 HI,
+Theorem C06_partition_full : forall atoMS loopMS pph seg mode cont ast snr st now ases ps j a s0 rest t0 HI,
   1 <= pph <= 3600 -> 0 < seg -> ast <= st <= now -> mode <> MNumber ->
-  splitPeriod false (Some atoMS) pph seg mode cont ast snr st now ases = Ok ps ->
+  splitPeriod false (Some (atoMS, loopMS)) pph seg mode cont ast snr st now ases = Ok ps ->
   nth_error ases j = Some a -> a_image a = false -> a_tl a = Some (s0 :: rest) -> p_t s0 = Some t0 ->
   Forall (fun s => 0 <= p_r s < two32) (s0 :: rest) ->
   let es := s0 :: rest in
@@ -216,8 +217,8 @@ Theorem C06_partition_full : forall atoMS pph seg mode cont ast snr st now ases 
   goodTL es (snrFor mode a) ts HI -> (k1 + 1) * P <= HI ->
   Forall (tlBound P HI) ases ->
   (forall f l, firstLast es = Some (f, l) ->
-     (st - ast) / (P * 1000) - 1 <= f / (P * ts) /\
-     l / (P * ts) <= kmaxOf (Some atoMS) P ast now k1) ->
+     kminOf (Some (atoMS, loopMS)) P ast st ((st - ast) / (P * 1000)) <= f / (P * ts) /\
+     l / (P * ts) <= kmaxOf (Some (atoMS, loopMS)) P ast now k1) ->
   flat_map (periodTimeline j) ps = expandP es /\
   Forall (fun p => periodTimeline j p = filter (inWin (pd_nr p * P * ts) ((pd_nr p + 1) * P * ts)) (expandP es) /\
                    periodPTO j p = Some (pd_start p * ts) /\
